@@ -24,6 +24,7 @@ func init() {
 			{Name: "drop-allow-test", File: "bfe_modules/mod_cors/mod_cors.go", Old: "	if !allow {\n		m.state.ReqNotAllowOriginHit.Inc(1)\n		return\n	}\n	m.state.ReqAllowOriginHit.Inc(1)\n\n	rspHeader.Set(HeaderAccessControlAllowOrigin, matchedOrigin)\n\n	if rule.AccessControlAllowCredentials {\n		rspHeader.Set(HeaderAccessControlAllowCredentials, \"true\")\n	}\n\n	if len(rule.AccessControlExposeHeaders)", New: "	if !allow {\n		m.state.ReqNotAllowOriginHit.Inc(1)\n	}\n	m.state.ReqAllowOriginHit.Inc(1)\n\n	rspHeader.Set(HeaderAccessControlAllowOrigin, matchedOrigin)\n\n	if rule.AccessControlAllowCredentials {\n		rspHeader.Set(HeaderAccessControlAllowCredentials, \"true\")\n	}\n\n	if len(rule.AccessControlExposeHeaders)", Expect: "acao-guard"},
 			{Name: "echo-origin", File: "bfe_modules/mod_cors/mod_cors.go", Old: "	return false, \"\"\n}", New: "	return true, origin\n}", Expect: "allow-return"},
 			{Name: "vary-dead-store", File: "bfe_modules/mod_cors/mod_cors.go", Old: "		rspHeader.Set(HeaderVary, varyValue+\",\"+HeaderOrigin)", New: "		varyValue += \",\" + HeaderOrigin", Expect: "vary-path"},
+			{Name: "fallthrough-to-later-rule", File: "bfe_modules/mod_cors/mod_cors.go", Old: "			m.setRespHeaderForNonPreflight(request, response.Header, &rule)\n			break", New: "			m.setRespHeaderForNonPreflight(request, response.Header, &rule)\n			if response.Header.Get(HeaderAccessControlAllowOrigin) != \"\" {\n				break\n			}", Expect: "first-match"},
 			{Name: "vary-call-dropped", File: "bfe_modules/mod_cors/mod_cors.go", Old: "		rspHeader.Set(HeaderAccessControlExposeHeaders, strings.Join(rule.AccessControlExposeHeaders, \",\"))\n	}\n\n	addVaryHeader(rspHeader)", New: "		rspHeader.Set(HeaderAccessControlExposeHeaders, strings.Join(rule.AccessControlExposeHeaders, \",\"))\n	}\n", Expect: "vary-after-grant"},
 		},
 	})
@@ -102,6 +103,33 @@ func runC52(c *core.Ctx) {
 	}
 	c.Min("acao-guard", 7)
 	c.Min("vary-after-grant", 2)
+	// first matching rule decides: once a rule's condition matched, no later rule is consulted
+	for _, hname := range []string{"ModuleCors.corsHandler", "ModuleCors.corsPreflightHandler"} {
+		fn := c.P.Func(pkg, hname)
+		if fn == nil {
+			c.Missing(pkg + "." + hname)
+			continue
+		}
+		n := 0
+		for _, in := range allInstrs(fn) {
+			ifi, ok := in.(*ssa.If)
+			if !ok {
+				continue
+			}
+			call, ok := ifi.Cond.(*ssa.Call)
+			if !ok || !call.Call.IsInvoke() || call.Call.Method.Name() != "Match" {
+				continue
+			}
+			n++
+			matched := ifi.Block().Succs[0]
+			again := core.ReachAvoiding(fn, matched.Instrs[0], nil, func(x ssa.Instruction) bool { return x == ssa.Instruction(call) })
+			c.Check("first-match", hname, ifi.Pos(), again == nil && matched.Instrs[0] != ssa.Instruction(call),
+				"after a CORS rule's condition matched, another rule's condition can still be evaluated: a request whose origin the first matching rule denies could be granted Access-Control-* headers by a later, broader rule")
+		}
+		if n == 0 {
+			c.Check("first-match", hname, fn.Pos(), false, "no rule-condition test found in "+hname)
+		}
+	}
 	// matchOriginAllowed: each return true is guarded by a map hit.
 	if match != nil {
 		for _, r := range core.Returns(match) {
